@@ -29,3 +29,4 @@ def run(ctx, rep):
     objmodel.rule_delete_answers_gone(ctx, rep, "C08-R22")
     objmodel.rule_native_arrays_get_the_prototype(ctx, rep, "C08-R23")
     objmodel.rule_function_prototype_objects_are_ordinary(ctx, rep, "C08-R24")
+    objmodel.rule_functions_have_a_chain(ctx, rep, "C08-R25")
